@@ -887,13 +887,19 @@ fn gen_c18(tier: &str, rng: &mut Rng) -> Vec<Case> {
         for k in 0..np {
             parts.push((if k > 0 && rng.chance(1, 3) { '>' } else { ' ' }, rand_compound(rng)));
         }
-        let st = sel_to_text(&SelAst { parts });
+        let st = sel_to_text(&SelAst { parts: parts.clone() });
         let mut cfg = Cfg { deco: *rng.pick(&[0u8, 2]), ..Default::default() };
         cfg.user_css.push(format!("{} {{ display: none; }}", st));
         let w = rng.range(5, 100);
         let route = if cfg.deco == 2 { 1 } else { 0 };
         let id = cases.len();
-        let mut c = mk_case(id, route, cfg, w, html.into_bytes(), Some(route as u64), g("selector_hidden"), "compound_selectors");
+        let base_cfg = Cfg { deco: cfg.deco, ..Default::default() };
+        let mut c = mk_case(id, route, cfg, w, html.clone().into_bytes(), Some(route as u64), g("selector_hidden"), "compound_selectors");
+        c.group = 8_000_000 + id;
+        SELS.with(|m| m.borrow_mut().insert(id, vec![SelAst { parts: parts.clone() }]));
+        cases.push(c);
+        // the same document without the sheet: which tokens are rendered at all
+        let mut c = mk_case(id + 1, route, base_cfg, w, html.into_bytes(), Some(route as u64), g("selector_baseline"), "compound_selectors");
         c.group = 8_000_000 + id;
         cases.push(c);
     }
@@ -955,6 +961,10 @@ fn check_c18(cases: &[Case], results: &[Option<RunResult>]) -> Vec<Violation> {
             continue;
         }
         let (a, b) = (grp[0], grp[1]);
+        if cases[a].slice == "compound_selectors" {
+            check_c18_tokens(cases, results, a, b, &mut v);
+            continue;
+        }
         if let (Some(ra), Some(rb)) = (&results[a], &results[b]) {
             if ra.outcome != rb.outcome {
                 if cases[a].slice == "doc_css_off" {
@@ -966,6 +976,120 @@ fn check_c18(cases: &[Case], results: &[Option<RunResult>]) -> Vec<Violation> {
         }
     }
     v
+}
+/// Hiding through a compound selector, judged against the declarative matcher `ref_match`
+/// (the semantics Spec/Selector.v states): a token inside a matched subtree must not appear in
+/// the output; a token outside every matched subtree that the document renders without the
+/// sheet must still appear (only asserted without tables, where words are never cut).
+fn check_c18_tokens(cases: &[Case], results: &[Option<RunResult>], a: usize, b: usize, v: &mut Vec<Violation>) {
+    let (ra, rb) = match (&results[a], &results[b]) {
+        (Some(x), Some(y)) => (x, y),
+        _ => return,
+    };
+    let sels = match SELS.with(|m| m.borrow().get(&cases[a].spec.id).cloned()) {
+        Some(s) => s,
+        None => return,
+    };
+    let (ta, tb) = match (ra.outcome.text(), rb.outcome.text()) {
+        (Some(x), Some(y)) if ra.outcome.is_ok() && rb.outcome.is_ok() => (x, y),
+        _ => return,
+    };
+    let dom = dom_of(ra);
+    let mut hidden: Vec<String> = Vec::new();
+    let mut visible: Vec<String> = Vec::new();
+    let mut has_table = false;
+    fn go<'a>(n: &'a DNode, idx: i32, chain: &mut Vec<(&'a DNode, i32)>, inside: bool, sels: &[SelAst], hidden: &mut Vec<String>, visible: &mut Vec<String>, has_table: &mut bool) {
+        match n {
+            DNode::Text(t) => {
+                for tok in t.split_whitespace() {
+                    if inside {
+                        hidden.push(tok.to_string());
+                    } else {
+                        visible.push(tok.to_string());
+                    }
+                }
+            }
+            DNode::El { kids, .. } => {
+                if n.is("table") {
+                    *has_table = true;
+                }
+                chain.insert(0, (n, idx));
+                let m = inside || sels.iter().any(|s| ref_match(&s.parts, chain));
+                let mut k = 0;
+                for kid in kids {
+                    let ki = if matches!(kid, DNode::El { .. }) {
+                        k += 1;
+                        k
+                    } else {
+                        0
+                    };
+                    go(kid, ki, chain, m, sels, hidden, visible, has_table);
+                }
+                chain.remove(0);
+            }
+            _ => {}
+        }
+    }
+    let mut chain = Vec::new();
+    let mut k = 0;
+    for n in &dom {
+        let ki = if matches!(n, DNode::El { .. }) {
+            k += 1;
+            k
+        } else {
+            0
+        };
+        go(n, ki, &mut chain, false, &sels, &mut hidden, &mut visible, &mut has_table);
+    }
+    // the generator's words are q<consonants>y<vowels>; adjacent inline elements may join several
+    fn q_tokens(s: &str) -> HashSet<String> {
+        let c: Vec<char> = s.chars().collect();
+        let mut out = HashSet::new();
+        let mut i = 0;
+        while i < c.len() {
+            if c[i] == 'q' {
+                let mut j = i + 1;
+                while j < c.len() && c[j].is_ascii_lowercase() && !"aeiouy".contains(c[j]) {
+                    j += 1;
+                }
+                if j < c.len() && c[j] == 'y' && j > i + 1 {
+                    j += 1;
+                    while j < c.len() && "aeiou".contains(c[j]) {
+                        j += 1;
+                    }
+                    out.insert(c[i..j].iter().collect());
+                    i = j;
+                    continue;
+                }
+            }
+            i += 1;
+        }
+        out
+    }
+    let hidden: HashSet<String> = hidden.iter().flat_map(|t| q_tokens(t)).collect();
+    let visible: HashSet<String> = visible.iter().flat_map(|t| q_tokens(t)).collect();
+    let ta = q_tokens(&ta);
+    let tb = q_tokens(&tb);
+    let mut hidden: Vec<String> = hidden.into_iter().collect();
+    hidden.sort();
+    let mut visible_v: Vec<String> = visible.iter().cloned().collect();
+    visible_v.sort();
+    let vis_set = &visible;
+    let visible = &visible_v;
+    for t in &hidden {
+        if !vis_set.contains(t.as_str()) && ta.contains(t.as_str()) {
+            v.push(viol(a, "an element matched by display:none still contributes text", format!("selector {:?}: token {:?} is inside a matched subtree", cases[a].spec.cfg.user_css, t), None));
+            return;
+        }
+    }
+    if !has_table && cases[a].spec.width >= 60 {
+        for t in visible {
+            if tb.contains(t.as_str()) && !ta.contains(t.as_str()) {
+                v.push(viol(a, "an element not matched by display:none was hidden", format!("selector {:?}: token {:?} is outside every matched subtree", cases[a].spec.cfg.user_css, t), None));
+                return;
+            }
+        }
+    }
 }
 fn nontrivial_c18(c: &Case, r: &RunResult) -> bool {
     (c.meta.role() == "hidden" || c.meta.role() == "selector_hidden") && r.outcome.is_ok()
